@@ -368,6 +368,12 @@ def run_pure(ck, exe, c):
     # 2. interior pointer -> object: every distance from the slab end for the fitting bins (the only callers),
     #    thorough: for every bin
     rc, out, err = sh([exe], input="".join("idx %d\n" % s for s in range(1, fit5 + 1)), timeout=120)
+    if rc == -9:
+        # the library does not even get through its start-up allocation: the long sweep below would only wait again
+        ck.oblige("corr:front-end-arithmetic", "correspondence", False, "white-box harness does not return (livelock in the allocator's start-up)")
+        ck.counterexample("wb-hang:idx=1", "white-box harness does not return on input 'idx 1' (the allocator livelocks during start-up)",
+                          {"engine": "E-PURE", "harness": "harness/c17/wb.cpp", "stdin": "idx 1", "expect_no": "crash"})
+        return
     objsizes = sorted({int(l.split()[1]) for l in out.split("\n") if l and l != "none"})
     ck.extra["object_sizes_observed"] = objsizes
     fitting = [o for o in objsizes if o > c["maxSegregatedObjectSize"]]
@@ -410,7 +416,7 @@ def run_pure(ck, exe, c):
             lines.append("al %d %d" % (v, a))
     lines += ["m %d" % s for s in range(0, fit5 + 80)]
     text = "\n".join(lines) + "\n"
-    rc, out, err = sh([exe], input=text, timeout=3000)
+    rc, out, err = sh([exe], input=text, timeout=600)
     impl = out.split("\n")[:-1]
     if rc != 0 or len(impl) != len(lines):
         ck.oblige("corr:front-end-arithmetic", "correspondence", False, "white-box harness rc=%d after %d/%d lines: %s" % (rc, len(impl), len(lines), err[-400:]))
@@ -500,12 +506,12 @@ def minimal_context(exe, lines, idx, c):
     """smallest input on which the white-box monitor still fires for lines[idx]: the line alone, else with one
     earlier line (slab state), else with its whole prefix"""
     def fires(inp):
-        rc, out, err = sh([exe], input="\n".join(inp) + "\n", timeout=600)
+        rc, out, err = sh([exe], input="\n".join(inp) + "\n", timeout=30)
         res = out.split("\n")[:-1]
         return rc != 0 or len(res) != len(inp) or wb_monitor(inp[-1], res[-1], c) is not None
     if fires([lines[idx]]):
         return [lines[idx]]
-    for j in range(idx - 1, max(-1, idx - 300), -1):
+    for j in range(idx - 1, max(-1, idx - 40), -1):
         if lines[j].split()[0] in ("al", "m") and fires([lines[j], lines[idx]]):
             return [lines[j], lines[idx]]
     return [l for l in lines[:idx] if l.split()[0] in ("al", "m")][-20000:] + [lines[idx]]
@@ -555,10 +561,12 @@ def bin_mix_script(s1, s2):
 # E-REAL: histories on the real libtbbmalloc under the shadow-heap monitor
 # ---------------------------------------------------------------------------------------------
 def find_malloc_lib():
-    b = os.path.join(REPO, "_build")
-    for d in sorted(os.listdir(b)) if os.path.isdir(b) else []:
-        if os.path.exists(os.path.join(b, d, "libtbbmalloc.so")):
-            return os.path.join(b, d)
+    # a scratch tree given through VERIF_REPO without a _build: the library of /repo (as common.find_tbb_lib does)
+    for root in (REPO, "/repo"):
+        b = os.path.join(root, "_build")
+        for d in sorted(os.listdir(b)) if os.path.isdir(b) else []:
+            if os.path.exists(os.path.join(b, d, "libtbbmalloc.so")):
+                return os.path.join(b, d)
     return None
 
 
@@ -819,13 +827,19 @@ def run(ck):
                    "harness/c17/wb.cpp (white-box observation), harness/c17/real.cpp (shadow-heap monitor)",
                    "correspondence is differential (exhaustive over the slab domain for the pure functions), not proved"]
     exe, c = gen(ck)
+    import c17be
+    be_exe, _ = c17be.gen(ck)
     ck.lean_stage()
     run_pure(ck, exe, c)
+    c17be.run(ck, be_exe, c)
     run_real(ck, c)
 
 
 def replay(ck, obj):
     r = obj["replay"]
+    if r.get("harness", "").endswith(("be.cpp", "gs.cpp")):
+        import c17be
+        return c17be.replay(ck, r)
     if r.get("harness", "").endswith("wb.cpp"):
         exe = cxx_build("C17", "wb", ["harness/c17/wb.cpp"], flags=WB_FLAGS, libs=WB_LIBS)
         rc, out, err = sh([exe], input=r["stdin"] + "\n", timeout=300)
